@@ -2972,6 +2972,9 @@ impl RelationalEngine {
         let indexed_columns = self.get_table_indexes(table);
         let btree_columns = self.get_table_btree_indexes(table);
         let mut row_ids = Vec::with_capacity(rows.len());
+        // Rows of this batch that are in the table so far, for taking the batch out again.
+        let mut inserted: Vec<(SlabRowId, u64, HashMap<String, Value>)> =
+            Vec::with_capacity(rows.len());
 
         for values in rows {
             // Build slab row in column order
@@ -2986,10 +2989,13 @@ impl RelationalEngine {
                 .collect();
 
             // Insert into slab
-            let slab_row_id = self
-                .slab()
-                .insert(table, slab_row)
-                .map_err(|e| RelationalError::StorageError(e.to_string()))?;
+            let slab_row_id = match self.slab().insert(table, slab_row) {
+                Ok(id) => id,
+                Err(e) => {
+                    self.undo_batch_insert(table, &inserted, &indexed_columns, &btree_columns);
+                    return Err(RelationalError::StorageError(e.to_string()));
+                },
+            };
 
             let row_id = slab_row_id.as_u64() + 1; // Convert 0-based to 1-based
 
@@ -2999,25 +3005,37 @@ impl RelationalEngine {
                 .or_insert_with(|| AtomicU64::new(0))
                 .fetch_max(row_id, Ordering::Relaxed);
 
-            // Update indexes
-            for col in &indexed_columns {
-                if col == "_id" {
-                    self.index_add(table, col, &Value::Int(row_id as i64), row_id)?;
-                } else {
-                    // An omitted key of a nullable column is NULL and is indexed as such.
-                    let value = values.get(col).unwrap_or(&Value::Null);
-                    self.index_add(table, col, value, row_id)?;
-                }
-            }
+            inserted.push((slab_row_id, row_id, values));
+            let values = &inserted[inserted.len() - 1].2;
 
-            for col in &btree_columns {
-                if col == "_id" {
-                    self.btree_index_add(table, col, &Value::Int(row_id as i64), row_id)?;
-                } else {
-                    // An omitted key of a nullable column is NULL and is indexed as such.
-                    let value = values.get(col).unwrap_or(&Value::Null);
-                    self.btree_index_add(table, col, value, row_id)?;
+            // Update indexes. An index can refuse an entry (ordered-index budget, storage
+            // error): the batch is atomic, so its rows and the entries made so far are taken
+            // out again instead of staying behind as rows that some index does not know.
+            let add_entries = || -> Result<()> {
+                for col in &indexed_columns {
+                    if col == "_id" {
+                        self.index_add(table, col, &Value::Int(row_id as i64), row_id)?;
+                    } else {
+                        // An omitted key of a nullable column is NULL and is indexed as such.
+                        let value = values.get(col).unwrap_or(&Value::Null);
+                        self.index_add(table, col, value, row_id)?;
+                    }
                 }
+
+                for col in &btree_columns {
+                    if col == "_id" {
+                        self.btree_index_add(table, col, &Value::Int(row_id as i64), row_id)?;
+                    } else {
+                        // An omitted key of a nullable column is NULL and is indexed as such.
+                        let value = values.get(col).unwrap_or(&Value::Null);
+                        self.btree_index_add(table, col, value, row_id)?;
+                    }
+                }
+                Ok(())
+            };
+            if let Err(e) = add_entries() {
+                self.undo_batch_insert(table, &inserted, &indexed_columns, &btree_columns);
+                return Err(e);
             }
 
             row_ids.push(row_id);
@@ -3025,6 +3043,33 @@ impl RelationalEngine {
 
         self.log_slow_query("batch_insert", table, start, row_ids.len());
         Ok(row_ids)
+    }
+
+    /// Takes the rows of a refused `batch_insert` out of the table and the indexes again.
+    #[allow(clippy::cast_possible_wrap)] // Row IDs are monotonic from 1, won't exceed i64::MAX
+    fn undo_batch_insert(
+        &self,
+        table: &str,
+        inserted: &[(SlabRowId, u64, HashMap<String, Value>)],
+        indexed_columns: &[String],
+        btree_columns: &[String],
+    ) {
+        for (slab_row_id, row_id, values) in inserted.iter().rev() {
+            let key_of = |col: &String| {
+                if col == "_id" {
+                    Value::Int(*row_id as i64)
+                } else {
+                    values.get(col).cloned().unwrap_or(Value::Null)
+                }
+            };
+            for col in indexed_columns {
+                let _ = self.index_remove(table, col, &key_of(col), *row_id);
+            }
+            for col in btree_columns {
+                let _ = self.btree_index_remove(table, col, &key_of(col), *row_id);
+            }
+            let _ = self.slab().delete(table, *slab_row_id);
+        }
     }
 
     /// Selects rows from the table that match the condition.
